@@ -941,6 +941,11 @@ func judgeMin(c minCase, out outcome, reused bool) *vk.Failure {
 			f0, known = out.tp.firstF, true
 		}
 		if known && !math.IsNaN(f0) && !math.IsInf(f0, 1) && !(res.F <= f0) {
+			if c.Method == mNelderMead && out.tp.anyBad {
+				// NaN values break the ordering of the simplex (sort and the
+				// comparisons of iterateLocal): a NaN or worse vertex is declared best
+				return vk.Failf("neldermead-nan-objective-worse-than-initial-point", "f(x0)=%v: %s", f0, desc())
+			}
 			return vk.Failf("worse-than-initial-point", "f(x0)=%v: %s", f0, desc())
 		}
 	}
